@@ -170,6 +170,14 @@ func Verif_C16_SafeMapStep() {
 	n := 0
 	m.Range(func(key, val any) bool { n++; w, ok := model[key]; rt.Assert(ok && w == val, "Range visits only model entries"); return true })
 	rt.Assert(n == len(model), "Range visits every entry exactly once")
+	// a callback that asks to stop is not called again, whichever generation the entries live in
+	calls := 0
+	m.Range(func(key, val any) bool { calls++; return false })
+	if len(model) > 0 {
+		rt.Assert(calls == 1, "Range stops at once when the callback returns false")
+	} else {
+		rt.Assert(calls == 0, "Range over an empty map calls nothing")
+	}
 }
 
 // ---------------------------------------------------------------- Set
@@ -218,4 +226,35 @@ func Verif_C16_Set() {
 	for _, kk := range ks {
 		rt.Assert(has(kk), "KeysInt lists only members")
 	}
+}
+
+type c16Point struct{ x, y int }
+
+//verif:entry native tier=quick,thorough cover=float,small,structkey
+//verif:doc Set with element types other than int/int64/uint/uint64/string (float64, int32, a comparable struct): Add then Contains / Count / Remove agree with the mathematical set for 2 symbolic-or-chosen elements (equal or different) and a probe.
+func Verif_C16_SetOtherTypes() {
+	s := NewSet()
+	var a, b, probe any
+	switch rt.Choose("kind", 3) {
+	case 0:
+		rt.Cover("float")
+		vals := []float64{1.5, 2.5, -0.0}
+		a, b, probe = vals[rt.Choose("a", 3)], vals[rt.Choose("b", 3)], vals[rt.Choose("p", 3)]
+	case 1:
+		rt.Cover("small")
+		a, b, probe = int32(rt.Choose("a", 3)), int32(rt.Choose("b", 3)), int32(rt.Choose("p", 3))
+	default:
+		rt.Cover("structkey")
+		a, b, probe = c16Point{rt.Choose("a", 2), 1}, c16Point{rt.Choose("b", 2), 1}, c16Point{rt.Choose("p", 2), 1}
+	}
+	s.Add(a, b)
+	want := 2
+	if a == b {
+		want = 1
+	}
+	rt.Assert(s.Count() == want, "Set.Count equals the number of distinct members")
+	rt.Assert(s.Contains(a) && s.Contains(b), "every added element is a member, whatever its type")
+	rt.Assert(s.Contains(probe) == (probe == a || probe == b), "Set.Contains agrees with the mathematical set")
+	s.Remove(a)
+	rt.Assert(!s.Contains(a) && s.Contains(b) == (a != b), "Remove takes out exactly the given element")
 }
